@@ -32,6 +32,7 @@ type c12Loop struct {
 	bound  string
 	op     string
 	step   int
+	stepV  string // non-empty: the step is this variable (its sign is not known to the analysis)
 	shape  string
 	native string
 	plain  string
@@ -59,6 +60,9 @@ func c12Gen(l *c12Loop, inner [2]string) {
 	}
 	S, N := cv(l.start), cv(l.bound)
 	upd := c12Update(v, l.step)
+	if l.stepV != "" {
+		upd = fmt.Sprintf("%s += %s", v, cv(l.stepV))
+	}
 	body := fmt.Sprintf("acc += int(%s)", v)
 	if inner[0] != "" {
 		body = "%INNER%"
@@ -152,6 +156,18 @@ func c12Family(thorough bool) []*c12Func {
 							add(fmt.Sprintf("%s/%s/i%s%s/start=%s/step=%+d", T, shape, op, bound, start, step), []*c12Loop{l}, l.plain, l.native)
 						}
 					}
+				}
+			}
+		}
+	}
+	// steps that are parameters: the loop may count up, down or not move at all
+	for _, shape := range []string{"for3", "while", "exittrue"} {
+		for _, op := range []string{"<", "<=", ">", ">=", "!="} {
+			for _, start := range []string{"0", "7"} {
+				for _, bound := range []string{"a", "10"} {
+					l := &c12Loop{id: 0, v: "i", typ: "int", start: start, bound: bound, op: op, stepV: "b", shape: shape}
+					c12Gen(l, [2]string{})
+					add(fmt.Sprintf("int/%s/i%s%s/start=%s/step=b", shape, op, bound, start), []*c12Loop{l}, l.plain, l.native)
 				}
 			}
 		}
